@@ -40,14 +40,14 @@ class Ctx:
         self.budget_s = float(spec.get("budget_s", 1e9))
 
     # ---- coverage -----------------------------------------------------
-    def case(self, desc, nontrivial=True, sample_every=0):
-        """Register one executed case; desc is hashable/JSON-able."""
+    def case(self, desc, nontrivial=True, sample_every=0, sample=None):
+        """Register one executed case; desc (hashable/JSON-able) identifies it, sample (optional) is the readable form."""
         self.evaluations += 1
         if nontrivial:
             self.hashes.add(h64(desc))
         if len(self.samples) < 4 or (sample_every and self.evaluations % sample_every == 0
                                      and len(self.samples) < 12):
-            self.samples.append(desc)
+            self.samples.append(desc if sample is None else sample)
 
     def case_id(self, ident, nontrivial=True):
         """Register a case identified by an integer that is unique per distinct case."""
@@ -62,6 +62,7 @@ class Ctx:
         self.enum_distinct = getattr(self, "enum_distinct", 0) + int(n_distinct_nontrivial)
 
     def clause(self, name, n=1):
+        self.last_clause = name
         self.clauses[name] = self.clauses.get(name, 0) + n
 
     def cls(self, name, n=1):
